@@ -355,7 +355,7 @@ func runC10(c *core.Ctx) {
 		c.Eval(1)
 		ref := refs[[2]int{j.file, j.cmd}]
 		rep := caseDoc{Files: map[string]string{"food.yaml": wd.book, "log.yaml": wd.log}, Args: args,
-			Note: fmt.Sprintf("reader of the %s fails at byte offset %d (chunk %d, error-with-data %v)", j.which, j.k, j.chunk, j.part),
+			Note:     fmt.Sprintf("reader of the %s fails at byte offset %d (chunk %d, error-with-data %v)", j.which, j.k, j.chunk, j.part),
 			Observed: map[string]any{"exit": res.Exit, "err": res.Err, "stdout": clip(res.Out, 1500), "readers": res.Readers, "panic": clip(res.Panic, 1500), "died": clip(res.Died, 1500)}}
 		sig := strings.Join(cmd.args[:min(2, len(cmd.args))], " ")
 		if cmd.args[0] == "summary" || cmd.args[0] == "lint" {
